@@ -219,6 +219,11 @@ void PrettyPrinter::expr_nary(kind_t kind, uint32_t num)
     default: throw TypeException("Invalid operator");
     }
 
+    if (num == 0) {  // an empty list "{ }" has no operand on the stack
+        st.push_back("{ }");
+        return;
+    }
+
     string s = st.back();
     st.pop_back();
     while (--num) {
